@@ -896,6 +896,8 @@ Proof. intros w. repeat split. Qed.
 Lemma inert_roles_acquire u inst : inert (fun w => acquire_role w u inst).
 Proof. intros w. repeat split. Qed.
 
+Lemma quiet_m_acquire u inst : quiet (m_acquire u inst).
+Proof. unfold m_acquire. apply (quiet_put_w_same (fun w => acquire_role w u inst)). apply inert_roles_acquire. Qed.
 Lemma quiet_m_release u inst : quiet (m_release u inst).
 Proof. unfold m_release. apply quiet_put_w_same. intros w. repeat split. Qed.
 
@@ -1295,7 +1297,7 @@ Proof.
       - intros _. apply t_ret. intros s HI. apply op_post_nolag; [exact HI|exact I].
       - intros e s HI. apply op_post_err, HI. }
     assert (Hgo : triple (fun s => Inv s /\ o_w s = w)
-              (emit (TCall KAW [] ROk []) ;;; put_w (acquire_role w u inst) ;;;
+              (emit (TCall KAW [] ROk []) ;;; m_acquire u inst ;;;
                match u with
                | EOutbox => guarded c inst u false (l <- p_list_outbox (ec_limit c) ;; relay_entries l ;;; m_release u inst ;;; ret PIdle)
                | EPoller s0 => guarded c inst u false (poll_once c inst u s0)
@@ -1311,8 +1313,7 @@ Proof.
         destruct E3 as [E|E]; rewrite E; [apply toks_ok_cons; [reflexivity|exact Htr]|exact Htr]. }
       2:{ intros e s [HI _]. apply op_post_err, HI. }
       intros _. eapply (t_seq _ _ _ (fun _ s => Inv s)).
-      { apply t_put_w. intros s s' [HI Hw] E1 E2 E3. destruct HI as (HW & Hn & Htr).
-        split; [rewrite E1; eapply WI_frame; try exact HW; rewrite <- Hw; reflexivity|split; [rewrite E2; exact Hn|rewrite E3; exact Htr]]. }
+      { eapply t_pre; [|apply (t_inv_quiet _ (quiet_m_acquire _ _))]. intros s [HI _]. exact HI. }
       2:{ intros e s HI. apply op_post_err, HI. }
       intros _.
       assert (Hcons : triple Inv (guarded c inst u false (p_call KNR true [] (fun w0 => w0) (fun _ => []) ;;; ret PRun)) (op_post u)).
